@@ -95,7 +95,7 @@ func runC01(args []string) error {
 	sm := newSummary("C01")
 	// consecutive seeds of the shared splitmix generator give shifted copies of one stream: start from a hashed state
 	r := newRng(*seed).fork()
-	nMain, nBound, nFrag := 200, 1, 120
+	nMain, nBound, nFrag := 400, 1, 200
 	if *tier == "thorough" {
 		nMain, nBound, nFrag = 10000, 6, 3000
 	}
